@@ -249,7 +249,7 @@ class Var:
             if 'null' in args and not val and val != 0:
                 try:
                     if hasattr(val, fmt):
-                        val = _get(val, fmt)()
+                        val = _keep_taint(val, _get(val, fmt)())
                     elif fmt in special_formats:
                         if fmt == 'html-quote' and \
                            isinstance(val, TaintedString):
@@ -278,7 +278,7 @@ class Var:
                 # We duplicate the code here to avoid exception handler
                 # which tends to screw up stack or leak
                 if hasattr(val, fmt):
-                    val = _get(val, fmt)()
+                    val = _keep_taint(val, _get(val, fmt)())
                 elif fmt in special_formats:
                     if fmt == 'html-quote' and \
                        isinstance(val, TaintedString):
@@ -360,6 +360,20 @@ class Call:
         self.encoding = encoding
 
 
+def _keep_taint(original, result):
+    """Put the taint mark back on a result derived from a tainted value.
+
+    Functions that work on ``str(value)`` (and str methods that
+    TaintedString does not wrap) return unmarked text.
+    """
+    if isinstance(original, TaintedString) and \
+       not isinstance(result, TaintedString):
+        text = result if isinstance(result, str) else ustr(result)
+        if isinstance(text, str) and '<' in text:
+            return TaintedString(text)
+    return result
+
+
 def url_quote(v, name='(Unknown name)', md={}):
     if isinstance(v, bytes):
         return urllib.parse.quote(v.decode('utf-8')).encode('utf-8')
@@ -375,13 +389,13 @@ def url_quote_plus(v, name='(Unknown name)', md={}):
 def url_unquote(v, name='(Unknown name)', md={}):
     if isinstance(v, bytes):
         return urllib.parse.unquote(v.decode('utf-8')).encode('utf-8')
-    return urllib.parse.unquote(str(v))
+    return _keep_taint(v, urllib.parse.unquote(str(v)))
 
 
 def url_unquote_plus(v, name='(Unknown name)', md={}):
     if isinstance(v, bytes):
         return urllib.parse.unquote_plus(v.decode('utf-8')).encode('utf-8')
-    return urllib.parse.unquote_plus(str(v))
+    return _keep_taint(v, urllib.parse.unquote_plus(str(v)))
 
 
 def newline_to_br(v, name='(Unknown name)', md={}):
@@ -412,10 +426,11 @@ def dollars_and_cents(v, name='(Unknown name)', md={}):
 def thousands_commas(v, name='(Unknown name)', md={},
                      thou=re.compile(
                          r"([0-9])([0-9][0-9][0-9]([,.]|$))").search):
+    orig = v
     v = str(v)
     vl = v.split('.')
     if not vl:
-        return v
+        return _keep_taint(orig, v)
     v = vl[0]
     del vl[0]
     if vl:
@@ -427,7 +442,7 @@ def thousands_commas(v, name='(Unknown name)', md={},
         l_ = mo.start(0)
         v = v[:l_ + 1] + ',' + v[l_ + 1:]
         mo = thou(v)
-    return v + s
+    return _keep_taint(orig, v + s)
 
 
 def whole_dollars_with_commas(v, name='(Unknown name)', md={}):
